@@ -469,6 +469,20 @@ func (w *c11vWorld) buildCredential(op c11vOp) (*vc.VerifiableCredential, error)
 				delete(e, "statusPurpose")
 			case "suspension":
 				e["statusPurpose"] = "suspension"
+			case "numidx": // the index as a JSON number / bool / object / null instead of a string
+				if n, err := strconv.Atoi(s.Idx); err == nil {
+					e["statusListIndex"] = n
+				} else {
+					e["statusListIndex"] = 1.5
+				}
+			case "boolidx":
+				e["statusListIndex"] = true
+			case "objidx":
+				e["statusListIndex"] = map[string]interface{}{"value": s.Idx}
+			case "nullidx":
+				e["statusListIndex"] = nil
+			case "numpurpose":
+				e["statusPurpose"] = 1
 			}
 			sts = append(sts, e)
 		}
@@ -579,6 +593,22 @@ func (g *c11vGen) next() c11vOp {
 		issuer := strings.Split(op.Subject, "#")[0]
 		for _, at := range [][]int{{-30, 30}, {-5, 0}, {-45, -120}, {100000, -30}}[r.Intn(4)] {
 			g.pending = append(g.pending, c11vOp{Op: "vverify", ID: op.Subject, Issuer: issuer, Kind: "other", At: at})
+		}
+		if (issuer == c11vA || issuer == c11vB) && strings.Contains(op.Subject, "#") {
+			// … and present it, among other credentials, in a presentation verified at a moment before / after that date
+			vp := g.vp(op.Subject)
+			vp.At = []int{-30, -5, 0, 30}[r.Intn(4)]
+			if r.Intn(4) > 0 { // mostly: everything else about the presentation is in order
+				vp.Holder, vp.VPSig, vp.NoVerifyVCs = vp.Presenter, "", false
+				for k := range vp.Creds {
+					c := &vp.Creds[k]
+					c.Subject, c.Issuer = vp.Presenter, strings.Split(c.ID, "#")[0]
+					if c.Issuer != vp.Presenter || c.Proof != "" {
+						c.Proof = "good"
+					}
+				}
+			}
+			g.pending = append(g.pending, vp)
 		}
 	}
 	return op
@@ -705,8 +735,8 @@ func (g *c11vGen) choose() c11vOp {
 				if r.Intn(5) == 0 { // other spellings / unparsable / negative / out-of-range indexes
 					st.Idx = []string{"+" + st.Idx, "0" + st.Idx, "-1", "-0", "abc", "", "1_0", " 1", "9223372036854775808", "131072", "99999999999"}[r.Intn(11)]
 				}
-				if r.Intn(6) == 0 {
-					st.Mal = []string{"noid", "idislist", "notype", "othertype", "nopurpose", "suspension", "badurl"}[r.Intn(7)]
+				if r.Intn(5) == 0 {
+					st.Mal = []string{"noid", "idislist", "notype", "othertype", "nopurpose", "suspension", "badurl", "numidx", "numidx", "boolidx", "objidx", "nullidx", "numpurpose"}[r.Intn(13)]
 				}
 				op.Statuses = append(op.Statuses, st)
 			}
